@@ -92,7 +92,7 @@ func genHistory(r *Rng, seed uint64, tier string) *C15Spec {
 		case k < 9:
 			op.Op = "set"
 			if e.Char != nil {
-				op.Field = pick(r, []string{"Length", "Allow", "Require", "Exclude", "AllowChars", "ExcludeChars", "RequireSets", "RequireSetsElem"})
+				op.Field = pick(r, []string{"Length", "Allow", "Require", "Exclude", "AllowChars", "ExcludeChars", "RequireSets", "RequireSetsElem", "Regroup", "Regroup"})
 				op.I = r.Intn(32)
 				if op.Field == "Length" {
 					op.I = 1 + r.Intn(8)
@@ -135,7 +135,7 @@ func init() {
 		Technique: "deterministic simulation of call histories: seeded sequences of API calls and caller-side field updates on long-lived recipes and word lists, each call on its own scripted tape; deep snapshots before/after and comparison with the same call on a fresh value in isolation; whole episode executed twice",
 		Rule:      "case = one API call inside a history; distinct by hash of (history prefix, call); non-trivial = the call is preceded by at least one other call or field update on the same pool",
 		Assumptions: []string{"the package knobs MaxTrials/MaxFailRate count as part of the current configuration (the isolated reference call runs under the same knob values)", "stateful separator closures written by the caller are excluded (only pure ones are used)"},
-		Episodes:    map[string]int{"quick": 1200, "thorough": 40000},
+		Episodes:    map[string]int{"quick": 12000, "thorough": 150000},
 		TwiceEvery:  3,
 		Real:        []string{"CharRecipe/WLRecipe Generate, Entropy, Alphabet, SuccessProbability, Size", "NewWordList", "separator presets / NewSFFunction"},
 		Simulated:   []string{"call history and field updates", "crypto/rand.Reader (one scripted tape per call)", "alphabet / word index orders (H2/H3), visit order (H4)"},
@@ -327,6 +327,12 @@ func runC15(c *Ctx, si interface{}) {
 		live = append(live, e)
 	}
 	hist := ""
+	type keptPw struct {
+		p    *spg.Password
+		view *PwView
+		at   int
+	}
+	var retained []keptPw
 	for i, op := range s.Ops {
 		if op.T >= len(live) {
 			continue
@@ -387,6 +393,43 @@ func runC15(c *Ctx, si interface{}) {
 			c.Violate("history-dependence", "", "history [%s]: call %d %s on entry %d (%s) differs from the same call with the same random bytes on a fresh value built from the current fields: %s", hist, i, op.Op, op.T, describe(e), why)
 			return
 		}
+		for _, k := range retained {
+			if now := viewPw(k.p); now.key() != k.view.key() || now.Entropy != k.view.Entropy {
+				c.Violate("returned-password-changed", "", "history [%s]: the password returned by call %d was %v and reads %v after call %d", hist, k.at, k.view.Tokens, now.Tokens, i)
+				return
+			}
+		}
+		if res.Kind == "ok" && res.P != nil {
+			retained = append(retained, keptPw{res.P, res.Pw, i})
+		}
+		// the result must reflect the *current* fields: for character recipes the reference model
+		// says what they mean (a process-wide memo would fool the fresh-value comparison too)
+		if res.Kind == "ok" && e.char != nil && e.cfgC.Length >= 1 && e.cfgC.Length <= 64 {
+			m := modelChar(e.cfgC)
+			switch op.Op {
+			case "alphabet":
+				if res.S != strings.Join(m.A, "") {
+					c.Violate("stale-fields", "", "history [%s]: call %d Alphabet() = %q but the current fields %s mean %q", hist, i, res.S, e.cfgC, strings.Join(m.A, ""))
+					return
+				}
+			case "entropy":
+				if m.Emptied == 0 && len(m.A) > 0 {
+					want := log2Big(m.Count())
+					if !f32close(res.F, want, entTol(want)) {
+						c.Violate("stale-fields", "", "history [%s]: call %d Entropy() = %v but the current fields %s give %.6f", hist, i, res.F, e.cfgC, want)
+						return
+					}
+				}
+			case "sp":
+				if p := m.SuccessProb(); p != nil && m.Emptied == 0 {
+					pf := ratToFloat(p)
+					if math.IsNaN(res.F) || math.Abs(res.F-pf) > 2e-4*pf+1e-7 {
+						c.Violate("stale-fields", "", "history [%s]: call %d SuccessProbability() = %v but the current fields %s give %s", hist, i, res.F, e.cfgC, p.FloatString(8))
+						return
+					}
+				}
+			}
+		}
 		if res.Kind == "ok" && res.Pw != nil && e.char != nil {
 			if ok, why := checkCharPassword(modelChar(e.cfgC), res.Pw); !ok {
 				c.Violate("stale-fields", "", "history [%s]: call %d returned %q which does not honour the current fields %s: %s", hist, i, res.Pw.S, e.cfgC, why)
@@ -425,6 +468,15 @@ func applySet(e *liveEntry, op HOp) {
 		case "RequireSets":
 			r.RequireSets = append([]string{}, op.SS...)
 			e.cfgC.RequireSets = append([]string{}, op.SS...)
+		case "Regroup":
+			// replace the recipe by a colliding sibling (same characters, different grouping)
+			if sibs := charSiblings(Sub(uint64(op.I)+7, "regroup"), e.cfgC); len(sibs) > 0 {
+				n := sibs[op.Idx%len(sibs)]
+				r.AllowChars, e.cfgC.AllowChars = n.AllowChars, n.AllowChars
+				r.ExcludeChars, e.cfgC.ExcludeChars = n.ExcludeChars, n.ExcludeChars
+				r.RequireSets = append([]string{}, n.RequireSets...)
+				e.cfgC.RequireSets = append([]string{}, n.RequireSets...)
+			}
 		case "RequireSetsElem":
 			if len(r.RequireSets) > 0 {
 				j := op.Idx % len(r.RequireSets)
